@@ -43,6 +43,8 @@ RULE = (
     "probes, dimension mismatches, empty arrays. Distinct by content; all non-trivial."
 )
 TRUSTED = [
+    "translator harness/translate/standardize.py: the element-wise statements of _accumulate_vector/_tensor and _apply_vector/_tensor "
+    "-> Generated/StdArith.lean (scalar function per coefficient); Props/StdArithTie.lean shows the array model applies exactly these",
     "NumPy reduction semantics named by the model: t.sum(axis=other_axes) / t.mean / broadcasting along `axis` are the "
     "coefficient-wise operations on the strided feature vectors `vectorsAlong` (exercised by correspondence on every rank<=4 and axis)",
     "the statistics matrix is observed through the public `save('*.npy')` + `np.load` (and through `apply`)",
@@ -66,7 +68,7 @@ LEVEL_NOTE = (
     "Trusted: Lean kernel, std axioms, NumPy axis-reduction/broadcast semantics as the strided feature-vector view "
     "(correspondence on all ranks<=4/axes), float round-off sampled only (condition-number-scaled tolerance)."
 )
-TECHNIQUE = "Lean 4 proof over an executable model polymorphic in the number type + Rat/Float correspondence"
+TECHNIQUE = "Lean 4 proof over an executable model polymorphic in the number type (per-coefficient arithmetic regenerated from post.py) + Rat/Float correspondence"
 
 EPS = 2.0 ** -52
 DTYPES = {"f64": np.float64, "f32": np.float32, "i32": np.int32, "i16": np.int16}
